@@ -21,6 +21,8 @@ type Transfer struct {
 	TsigProvider   TsigProvider      // An implementation of the TsigProvider interface. If defined it replaces TsigSecret and is used for all TSIG operations.
 	TsigSecret     map[string]string // Secret(s) for Tsig map[<zonename>]<base64 secret>, zonename must be in canonical form (lowercase, fqdn, see RFC 4034 Section 6.2)
 	tsigTimersOnly bool
+	tsigKeyName    string // key name and algorithm of the TSIG of the request
+	tsigAlgorithm  string
 	TLS            *tls.Config // TLS config. If Xfr over TLS will be attempted
 }
 
@@ -256,6 +258,15 @@ func (t *Transfer) ReadMsg() (*Msg, error) {
 		// Need to work on the original message p, as that was used to calculate the tsig.
 		err = TsigVerifyWithProvider(p, tp, t.tsigRequestMAC, t.tsigTimersOnly)
 		if ts := m.IsTsig(); ts != nil {
+			// An answer is signed with the key and the algorithm of the request
+			// (RFC 8945, section 5.3), not with just any key we happen to hold.
+			if err == nil && t.tsigKeyName != "" {
+				if !equal(ts.Hdr.Name, t.tsigKeyName) {
+					err = ErrKey
+				} else if !equal(ts.Algorithm, t.tsigAlgorithm) {
+					err = ErrKeyAlg
+				}
+			}
 			t.tsigRequestMAC = ts.MAC
 		}
 	}
@@ -265,7 +276,9 @@ func (t *Transfer) ReadMsg() (*Msg, error) {
 // WriteMsg writes a message through the transfer connection t.
 func (t *Transfer) WriteMsg(m *Msg) (err error) {
 	var out []byte
+	t.tsigKeyName, t.tsigAlgorithm = "", ""
 	if ts, tp := m.IsTsig(), t.tsigProvider(); ts != nil && tp != nil {
+		t.tsigKeyName, t.tsigAlgorithm = ts.Hdr.Name, ts.Algorithm
 		out, t.tsigRequestMAC, err = TsigGenerateWithProvider(m, tp, t.tsigRequestMAC, t.tsigTimersOnly)
 	} else {
 		out, err = m.Pack()
